@@ -638,6 +638,14 @@ def _humanize(a, pre):
         a["comps"] = [0, 0, 0, 0, sec // 3600, sec % 3600 // 60, sec % 60]
         a["invert"] = d_us < 0
         return x.diff_for_humans(y, absolute=a["absolute"], locale=a["locale"])
+    if en == "date_diff_for_humans":
+        # a Date against a Date, a DateTime or a native date / datetime: only the dates count
+        yd = p.Date(y.year, y.month, y.day)
+        iv_probe = p.Interval(x, yd, absolute=True)
+        a["comps"] = [abs(int(v)) for v in (iv_probe.years, iv_probe.months, iv_probe.weeks, iv_probe.remaining_days, 0, 0, 0)]
+        a["invert"] = bool(x > yd)
+        other = {"pendulum": y, "native": _native(y)}[a.get("other", "pendulum")]
+        return x.diff_for_humans(other, absolute=a["absolute"], locale=a["locale"])
     iv_probe = p.Interval(x, y, absolute=True)
     a["comps"] = [abs(int(v)) for v in (iv_probe.years, iv_probe.months, iv_probe.weeks, iv_probe.remaining_days, iv_probe.hours,
                                          iv_probe.minutes, iv_probe.remaining_seconds)]
